@@ -50,6 +50,9 @@ fn main() {
         }
         schema_ops::containers(&mut g, if thorough { 60000 } else { 4000 }, &mut out);
         if prop == "C17" {
+            for run in catalogue::schema_perturbed() {
+                run(&mut g, &mut out);
+            }
             for run in catalogue::schema_pairs() {
                 for _ in 0..(if thorough { 10 } else { 2 }) {
                     run(&mut g, &mut out);
